@@ -228,6 +228,8 @@ void oracle_c08_cache_end(World &w, const History &)
 }
 
 
+static bool looked_at(const World &w, const Packet &p, const Transmission **cur_out); // defined with the C17 oracle
+
 // first transmission index of the (single) wire query a simple request token started
 static int first_tx_of(const World &w, const Token &t)
 {
@@ -274,7 +276,7 @@ void oracle_c09_failover(World &w, const History &h)
         for (auto &p : w.packets)
           if (!p.forged && p.for_tx == pv.id && p.t_read >= 0 && (p.kind == RK_FORMERR_NOOPT || p.kind == RK_FORMERR_OPT)) same_server_resend = true;
       }
-      if (!servers_changed && !same_server_resend) {
+      if (!servers_changed && !same_server_resend && !t.batched) {
         if (t.ref_fail[t.server] != best)
           w.violate("C09:selection:not-a-best-server",
                     fmt("tx#%d of query id %u went to server %d with %d consecutive failures while a server with %d exists (failures by server: %d,%d,%d)", t.id, t.q.id,
@@ -292,9 +294,34 @@ void oracle_c09_failover(World &w, const History &h)
       }
       prev_tx[t.q.id] = t.id;
     } else {
-      // probe copy
+      // probe copy. A protocol-mandated resend of the copy itself (TC -> TCP, EDNS downgrade, bad cookie) is part of
+      // the same probe and is not judged again.
+      bool mandated_resend = false;
+      for (auto &o : w.txs) {
+        if (o.id >= t.id || !o.q.ok || o.q.id != t.q.id) continue;
+        for (auto &p : w.packets)
+          if (!p.forged && p.for_tx == o.id && p.seq_read >= 0 && p.seq_read < t.seq &&
+              (p.kind == RK_FORMERR_NOOPT || p.kind == RK_FORMERR_OPT || p.kind == RK_TC || p.kind == RK_BADCOOKIE))
+            mandated_resend = true;
+      }
+      if (mandated_resend) {
+        w.W("c09_probe_mandated_resend");
+        continue;
+      }
       w.W("c09_probe_seen");
-      if (ntx[t.q.id] > 1) w.violate("C09:probe:retried", fmt("probe query id %u was transmitted %d times", t.q.id, ntx[t.q.id]));
+      {
+        int plain = 0; // transmissions of this copy that are not mandated resends
+        for (auto &o : w.txs)
+          if (o.q.ok && o.q.id == t.q.id) {
+            bool m = false;
+            for (auto &o2 : w.txs)
+              if (o2.id < o.id && o2.q.ok && o2.q.id == o.q.id)
+                for (auto &p : w.packets)
+                  if (!p.forged && p.for_tx == o2.id && p.seq_read >= 0 && p.seq_read < o.seq && (p.kind == RK_FORMERR_NOOPT || p.kind == RK_FORMERR_OPT || p.kind == RK_TC || p.kind == RK_BADCOOKIE)) m = true;
+            if (!m) plain++;
+          }
+        if (plain > 1) w.violate("C09:probe:retried", fmt("probe query id %u was transmitted %d times (not counting protocol-mandated resends)", t.q.id, plain));
+      }
       if (!servers_changed && t.ref_fail[t.server] == 0) w.violate("C09:probe:to-healthy-server", fmt("probe tx#%d went to server %d which has no failures", t.id, t.server));
       if (w.cfg->retry_chance == 0) w.violate("C09:probe:sent-although-disabled", fmt("probe tx#%d sent although the retry chance is 0", t.id));
       if (!servers_changed && t.t_us < t.last_fail_us[t.server] + (int64_t)w.cfg->retry_delay * 1000)
@@ -306,13 +333,135 @@ void oracle_c09_failover(World &w, const History &h)
       if (!same_question) w.violate("C09:probe:different-question", fmt("probe tx#%d asks a question no user query asked", t.id));
     }
   }
+  // ---- the same selection rule judged from what the NETWORK saw (not from the library's own callbacks): every
+  // re-send of a user query that is not a protocol-mandated resend means the previous attempt failed at that server
+  // (timeout, error reply, connection closed / reset, send failure), so that server must have been demoted.
+  // Everything is ordered by the moment the destination was DECIDED (for the first frame of a TCP connection that is
+  // when the connection was opened, not when the frame reached the wire).
+  {
+    struct Evt {
+      long seq;
+      int  kind; // 0 fail, 1 reset
+      int  server;
+    };
+    std::vector<Evt>        evs;
+    std::set<int>           conn_failed;
+    std::map<unsigned, int> prev;
+    std::map<int, bool>     mandated_tx;
+    for (auto &t : w.txs) {
+      if (!t.q.ok || t.server < 0 || t.server >= 8 || !user_q.count(t.q.id)) continue;
+      auto pit = prev.find(t.q.id);
+      bool mandated = false;
+      if (pit != prev.end()) {
+        const Transmission &pv = w.txs[(size_t)pit->second];
+        bool err_reply = false;
+        for (auto &p : w.packets) {
+          // any reply to a transmission of this query (also a late one to an earlier transmission on the same
+          // connection) that the library read since the previous transmission
+          if (p.forged || p.for_tx < 0 || p.seq_read < pv.seq || p.seq_read >= t.seq) continue;
+          if (!w.txs[(size_t)p.for_tx].q.ok || w.txs[(size_t)p.for_tx].q.id != t.q.id) continue;
+          if (!looked_at(w, p, nullptr)) continue; // arrived on a connection the query had left: dropped unseen
+          if (p.kind == RK_FORMERR_NOOPT || p.kind == RK_FORMERR_OPT || p.kind == RK_TC || p.kind == RK_BADCOOKIE) mandated = true;
+          if (p.kind == RK_SERVFAIL || p.kind == RK_REFUSED || p.kind == RK_NOTIMP) err_reply = true;
+        }
+        if (!mandated && pv.server >= 0 && pv.server < 8) {
+          // its own timeout or an error reply count per query; a connection-level failure is one failure of the
+          // server however many queries were waiting on that connection
+          // a connection-level cause is known to the harness (it closed / reset that connection itself, or injected
+          // a failure on that descriptor); anything else is this query's own timeout or an error reply
+          bool conn_level = false;
+          for (auto &nf : w.net_fails)
+            if (nf.fd == pv.fd && nf.seq < t.seq) conn_level = true;
+          if (err_reply || conn_level) {
+            // counted when the error reply was read / when the connection failure happened (below)
+          } else
+            evs.push_back({ t.decision_seq * 2 - 1, 0, pv.server });
+        }
+      }
+      mandated_tx[t.id] = mandated;
+      prev[t.q.id]      = t.id;
+    }
+    for (auto &p : w.packets) {
+      if (p.seq_read < 0 || p.forged || p.src_server < 0 || p.src_server >= 8) continue;
+      if ((p.kind == RK_SERVFAIL || p.kind == RK_REFUSED || p.kind == RK_NOTIMP) && p.for_tx >= 0 && user_q.count(w.txs[(size_t)p.for_tx].q.id) && looked_at(w, p, nullptr))
+        evs.push_back({ p.seq_read * 2, 0, p.src_server }); // an error reply the library looked at is a failure of that server
+      bool delivered = false;
+      for (auto &tk : w.toks)
+        if (tk.count && (std::find(tk.markers.begin(), tk.markers.end(), p.serial) != tk.markers.end() || tk.neg_marker == p.serial)) delivered = true;
+      if (delivered) evs.push_back({ p.seq_read * 2, 1, p.src_server });
+    }
+    // a query that ENDED unsuccessfully: its last attempt failed too (there is no re-send to show it)
+    for (auto &tk : w.toks) {
+      if (!tk.count || tk.req < 0 || tk.seq_done < 0) continue;
+      if (!(tk.status == ARES_ETIMEOUT || tk.status == ARES_ESERVFAIL || tk.status == ARES_EREFUSED || tk.status == ARES_ENOTIMP || tk.status == ARES_ECONNREFUSED)) continue;
+      const ReqSpec &rs = (*w.reqs)[(size_t)tk.req];
+      std::string    k  = norm_name(rs.name) + "/" + std::to_string(rs.qtype);
+      auto           fq = first_q.find(k);
+      if (fq == first_q.end()) continue;
+      const Transmission *last = nullptr;
+      for (auto &t : w.txs)
+        if (t.q.ok && t.q.id == fq->second && t.seq < tk.seq_done) last = &t;
+      if (!last || last->server < 0 || last->server >= 8) continue;
+      bool err_reply = false;
+      for (auto &p : w.packets)
+        if (!p.forged && p.for_tx == last->id && p.seq_read >= 0 && p.seq_read < tk.seq_done && (p.kind == RK_SERVFAIL || p.kind == RK_REFUSED || p.kind == RK_NOTIMP)) err_reply = true;
+      if (err_reply) {
+        // counted when the error reply was read
+      } else if (tk.status == ARES_ETIMEOUT) evs.push_back({ tk.seq_done * 2 - 1, 0, last->server });
+    }
+    // injected socket failures: visible to the harness even when they leave no transmission behind
+    bool unknown_server_failure = false;
+    // a UDP->TCP upgrade moves a query between connections in the middle of an attempt; the bookkeeping of "which
+    // attempt failed where" is then ambiguous from outside, so histories with a truncated reply are left to the
+    // callback-driven table above
+    for (auto &p : w.packets)
+      if (p.kind == RK_TC) unknown_server_failure = true;
+    // probe copies fail and succeed without any outside trace (no callback, no retransmission): with probing enabled the
+    // health table cannot be reconstructed from the network alone
+    if (w.cfg->retry_chance != 0) unknown_server_failure = true;
+    for (auto &nf : w.net_fails) {
+      if (nf.server < 0 || nf.server >= 8) {
+        unknown_server_failure = true;
+        continue;
+      }
+      evs.push_back({ nf.seq * 2, 0, nf.server });
+    }
+    std::sort(evs.begin(), evs.end(), [](const Evt &a, const Evt &b) { return a.seq < b.seq; });
+    std::vector<const Transmission *> order;
+    for (auto &t : w.txs)
+      if (t.q.ok && t.server >= 0 && t.server < 8 && user_q.count(t.q.id)) order.push_back(&t);
+    std::sort(order.begin(), order.end(), [](const Transmission *a, const Transmission *b) { return a->decision_seq < b->decision_seq; });
+    int    true_fail[8] = { 0 };
+    size_t ei = 0;
+    for (const Transmission *tp : order) {
+      const Transmission &t = *tp;
+      while (ei < evs.size() && evs[ei].seq <= t.decision_seq * 2) {
+        if (evs[ei].kind == 0) true_fail[evs[ei].server]++;
+        else true_fail[evs[ei].server] = 0;
+        ei++;
+      }
+      if (servers_changed || mandated_tx[t.id] || unknown_server_failure || t.batched) continue;
+      int best = 1 << 30;
+      for (int i = 0; i < nsrv; i++) best = std::min(best, true_fail[i]);
+      // Failures that leave no trace on the network (a timeout whose re-send could not even be attempted) are known to
+      // the library only, so the network may show FEWER failures than the library announced, never more. The check
+      // fires when the chosen server has failures the library never announced and those failures matter for the choice.
+      if (true_fail[t.server] > best && true_fail[t.server] > t.ref_fail[t.server])
+        w.violate("C09:selection:failed-server-not-demoted",
+                  fmt("tx#%d of query id %u went to server %d again although %d of its attempts there failed (network view) and another server has only %d failures", t.id,
+                      t.q.id, t.server, true_fail[t.server], best));
+      w.W("c09_network_view_checked");
+    }
+  }
   // success restores, failure demotes: the callback stream itself must be consistent with what the network saw
   int n_succ = 0;
   for (auto &ss : w.server_state)
     if (ss.second) n_succ++;
   int accepted = 0;
   for (auto &p : w.packets)
-    if (!p.forged && p.t_read >= 0 && (p.rcode == vdns::RC_NOERROR || p.rcode == vdns::RC_NXDOMAIN) && !p.tc && p.kind != RK_MALFORMED && p.kind != RK_EMPTY) accepted++;
+    if (!p.forged && p.t_read >= 0 && (p.rcode == vdns::RC_NOERROR || p.rcode == vdns::RC_NXDOMAIN) && p.kind != RK_MALFORMED && p.kind != RK_EMPTY &&
+        (!p.tc || (p.for_tx >= 0 && w.txs[(size_t)p.for_tx].tcp) || (w.cfg->flags & ARES_FLAG_IGNTC)))
+      accepted++;
   if (n_succ > accepted) w.violate("C09:state:success-without-accepted-reply", fmt("%d server successes were announced but only %d acceptable replies were read", n_succ, accepted));
 }
 
